@@ -75,6 +75,7 @@ def run(tier, seed):
                 sig, detail = judge(one)
                 if 'ok' in one and one['ok']['nconf'] + one['ok']['ndec'] > 0: conf = True
                 if sig:
+                    sig = K.refine_signature(sig, t, detail)      # root causes sharing an exception@frame are kept apart
                     fail_cases.setdefault(sig, []).append((t, cfg, mode, detail))
             key = '%s/%s' % (t['src'].split(':')[0], mode)
             hist[key] = hist.get(key, 0) + 1
@@ -82,10 +83,9 @@ def run(tier, seed):
         for sig, lst in sorted(fail_cases.items()):
             t, cfg, mode, detail = min(lst, key=lambda x: len(pyspec.canon([x[0]['b'], x[0]['l'], x[0]['r']])))
             small = K.shrink_triple(sb, t, cfg, mode, sig, budget=40 if tier == 'quick' else 120)
-            sig2 = K.refine_signature(sig, small, detail)
             case = {'base': small['b'], 'local': small['l'], 'remote': small['r'], 'config': cfg, 'tools': mode,
                     'failing_configs_this_run': len(set(json.dumps(x[1]) for x in lst)), 'failing_cases_this_run': len(lst)}
-            chk.violation(sig2, case, detail)
+            chk.violation(sig, case, detail)
         chk.cov.update({
             'evaluations': evals, 'distinct_nontrivial': len(nontrivial),
             'rule': 'one evaluation = one merge_notebooks call (triple x configuration x tool availability). Triples: built-in corpus, the repository fixture triples, '
